@@ -69,6 +69,8 @@ class Capture:
         self.surfs_after_post = None
         self.cells_after = None       # {id: dict} of the final mcnp cell dictionary
         self.bc_in = None             # [(id, flag, parts)] of the MCNP surface dictionary
+        self.inline_in = None         # (max score, [(id, universe, geom sexp)]) before inline_cells
+        self.inline_out = None        # [(id, geom sexp)] after
         self.error = None
 
 
@@ -170,6 +172,24 @@ def convert_capture(deck_text, args=()):
             return res
         return convertMCNPGeometry
 
+    def mk_inline(orig):
+        def inline_cells(dic, max_inline_score):
+            try:
+                cap.inline_in = (float(max_inline_score),
+                                 [(int(k), int(c.universe), geom_sexp(c.geometry)) for k, c in dic.items()])
+            except Exception as e:  # noqa
+                cap.error = 'inline-capture: %r' % (e,)
+            res = orig(dic, max_inline_score)
+            try:
+                cap.inline_out = [(int(k), geom_sexp(c.geometry)) for k, c in dic.items()]
+            except Exception as e:  # noqa
+                cap.error = 'inline-capture: %r' % (e,)
+            return res
+        return inline_cells
+
+    import t4_geom_convert.Kernel.Volume.ConstructVolumeT4 as CVT
+    patch(CVT, 'inline_cells', mk_inline)
+
     cls = getattr(CC, 'CellConversion', None)
     if cls is None:
         cap.missing.append('CellConversion')
@@ -212,6 +232,11 @@ def struct_vol_sexp(k, v):
     return '(vol %d (p %s) (m %s)%s (o %s) %s)' % (
         k, ' '.join(map(str, pl)), ' '.join(map(str, mi)), o, ' '.join('(%d %d)' % p for p in origin),
         'F' if fict else 'R')
+
+
+def inline_request(cap):
+    mx, cells = cap.inline_in
+    return '(inline (max %r) (cells %s))' % (mx, ' '.join('(cell %d %d %s)' % c for c in cells))
 
 
 def complement_request(cap):
